@@ -234,4 +234,11 @@ theorem C02_skeleton_cipher :
     Sso.Generated.skel_aead_NewMiscreantCipher = ["call:NewAEAD", "if{", "return", "}", "return"] ∧
     Sso.Generated.skel_aead_Decrypt = ["call:Lock", "defer:Unlock", "call:len", "if{", "call:len", "call:Errorf", "return", "}", "call:len", "call:Open", "if{", "return", "}", "return"] := by decide
 
+/-- Tie (T1): loading a session opens the cookie with the store's cipher on **every** request (no memo, no shortcut). -/
+theorem C02_skeleton_load :
+    Sso.Generated.skel_store_LoadSession =
+      ["call:NewLogEntry", "call:Cookie", "if{", "return", "}", "call:UnmarshalSession", "if{", "call:WithRequestHost", "call:WithError", "call:Error", "return", "}", "return"] ∧
+    Sso.Generated.skel_sessions_UnmarshalSession =
+      ["call:Unmarshal", "if{", "return", "}", "return"] := by decide
+
 end Sso.Seal
